@@ -24,9 +24,10 @@ theorem sign_digest_unique {c : Codec} {z : Bytes} {ps : Parts} {r : Signed} (h 
       one is written; the manifest is stored; the signature part is not inflated by `verify`);
     * the manifest is not empty and the block map's 24-byte descriptor is not taken for a 16-byte one (F7a:
       `descWideOk`, true whenever the block map is not empty and its deflated form is below 4 GiB);
-    * none of the parts written before the signature needs a ZIP64 extra field: sizes below 0xffffffff and the signature
-      part at an offset ≤ 0xffffffff (otherwise `WriteDirectory` prepends the field a second time when the final directory
-      is written, and AXCD no longer matches); the signature's uncompressed length fits 64 bits; the output is below 2^63;
+    * the sizes of the regenerated parts and the signature's uncompressed length fit 64 bits; the output is below 2^63.
+      (Since fix 7d5f1c2 NO 4 GiB limit: `WriteDirectory` leaves the directory as it was — `write_directory_idempotent` of C17 —
+      so the directory hashed for AXCD is the directory written also when parts or the signature part lie at or beyond
+      0xffffffff.  Before that fix the ZIP64 field was prepended a second time: `write_directory_twice_prepends_twice_orig`.)
     * no payload member is named `*.appx` (F41: `blockMap.AddFile` leaves it out, `verifyBlockMap` demands it).
     No hypothesis about the payload members otherwise (whatever the forward pass read during signing is read again, at
     the same offsets, by the random-access reader), none about PE members (`verify` carries fix-F19). -/
@@ -34,13 +35,13 @@ theorem appx_sign_then_verify_zip (c : Codec) (z : Bytes) (ps : Parts) (r : Sign
     (hbm : c.inflate ps.blockmap.compd = some ps.blockmap.plain)
     (hct : c.inflate ps.ctypes.compd = some ps.ctypes.plain)
     (hcat : r.streams.axci.isSome = true → c.inflate ps.catalog.compd = some ps.catalog.plain)
-    (hman : ps.manifest.plain ≠ [] ∧ ps.manifest.plain.length < u32Max)
+    (hman : ps.manifest.plain ≠ [] ∧ ps.manifest.plain.length < 2 ^ 64)
     (hbms : descWideOk ps.blockmap.compd.length ps.blockmap.plain.length ∧
-      ps.blockmap.compd.length < u32Max ∧ ps.blockmap.plain.length < u32Max)
-    (hcts : ps.ctypes.compd.length < u32Max ∧ ps.ctypes.plain.length < u32Max)
-    (hcats : r.streams.axci.isSome = true → ps.catalog.compd.length < u32Max ∧ ps.catalog.plain.length < u32Max)
+      ps.blockmap.compd.length < 2 ^ 64 ∧ ps.blockmap.plain.length < 2 ^ 64)
+    (hcts : ps.ctypes.compd.length < 2 ^ 64 ∧ ps.ctypes.plain.length < 2 ^ 64)
+    (hcats : r.streams.axci.isSome = true → ps.catalog.compd.length < 2 ^ 64 ∧ ps.catalog.plain.length < 2 ^ 64)
     (hsigs : ps.signature.plain.length < 2 ^ 64)
-    (hoff : r.sigOff ≤ u32Max) (h63 : r.out.length < 2 ^ 63)
+    (h63 : r.out.length < 2 ^ 63)
     (happx : ∀ g, digest c z = .ok g → ∀ m ∈ g.p.members, endsWith m.file.name sAppx = false) :
     verify c r.out r.streams (some r.bm) = .ok () := by
   have hsmall : ∀ g, digest c z = .ok g → PartsSmall g.p.hasPE ps := by
@@ -57,7 +58,7 @@ theorem appx_sign_then_verify_zip (c : Codec) (z : Bytes) (ps : Parts) (r : Sign
       · exact ⟨hbms.2.1, hbms.2.2⟩
       · exact hcts
       · exact hcats (by rw [hpe, hb])
-  exact sign_then_verify ⟨hsign, hman.1, hbms.1, hsmall, hoff, hsigs, h63⟩ hbm hct
+  exact sign_then_verify ⟨hsign, hman.1, hbms.1, hsmall, hsigs, h63⟩ hbm hct
     (fun g hg hb => hcat (by rw [sign_digest_unique hsign hg, hb])) happx
 
 
@@ -77,16 +78,16 @@ set_option maxRecDepth 20000 in
 /-- the hypotheses of `appx_sign_then_verify_zip` hold for the witness package of C05 (one payload member, no catalog), so the
     verifier accepts its signed form -/
 example : ∃ r, sign cW C05.zEx C05.psEx = .ok r ∧ verify cW r.out r.streams (some r.bm) = .ok () := by
-  have h : C05.okAnd (sign cW C05.zEx C05.psEx) (fun r => r.streams.axci.isNone && decide (r.sigOff ≤ u32Max) &&
+  have h : C05.okAnd (sign cW C05.zEx C05.psEx) (fun r => r.streams.axci.isNone &&
       decide (r.out.length < 2 ^ 63)) = true := by decide
   obtain ⟨r, hr, hp⟩ := okAnd_ok h
   simp only [Bool.and_eq_true, decide_eq_true_eq] at hp
-  obtain ⟨⟨h1, h2⟩, h3⟩ := hp
+  obtain ⟨h1, h3⟩ := hp
   have hnone : ¬ r.streams.axci.isSome = true := by
     cases hx : r.streams.axci <;> simp [hx] at h1 ⊢
   have hd : C05.okAnd (digest cW C05.zEx) (fun g => g.p.members.all fun m => !endsWith m.file.name sAppx) = true := by decide
   refine ⟨r, hr, appx_sign_then_verify_zip cW C05.zEx C05.psEx r hr (by decide) (by decide) (fun hc => absurd hc hnone)
-    (by decide) ⟨by unfold descWideOk; decide, by decide, by decide⟩ (by decide) (fun hc => absurd hc hnone) (by decide) h2 h3 ?_⟩
+    (by decide) ⟨by unfold descWideOk; decide, by decide, by decide⟩ (by decide) (fun hc => absurd hc hnone) (by decide) h3 ?_⟩
   intro g hg m hm
   rw [hg] at hd
   simp only [C05.okAnd, List.all_eq_true, Bool.not_eq_true'] at hd
